@@ -25,8 +25,16 @@ import (
 
 type K int64
 
+// cmpDiff selects the comparator's magnitudes: the documented contract is <0 / 0 / >0, so half
+// of the histories (those with an even number of operations: a function of the input, hence
+// replayable) use a comparator that returns the difference of the keys instead of -1/0/+1.
+var cmpDiff bool
+
 func (a K) CompareTo(o collections.Comparable) int {
 	b := o.(K)
+	if cmpDiff {
+		return int(a - b)
+	}
 	if a < b {
 		return -1
 	} else if a > b {
@@ -80,7 +88,7 @@ type iter struct {
 }
 
 func kOf(k treemap.KeyType) int64 { return int64(k.(K)) }
-func vOf(v interface{}) int64      { return v.(int64) }
+func vOf(v interface{}) int64     { return v.(int64) }
 
 func optVal(v interface{}) Sx {
 	if v == nil {
@@ -137,7 +145,7 @@ func newIter(m *treemap.Map, kind int64) *iter {
 
 type stats struct {
 	mutations, iterRemoves, panics, probes, maxSize int
-	hung                                           bool
+	hung                                            bool
 }
 
 func dump(m *treemap.Map) Sx {
@@ -317,6 +325,7 @@ func run(in Sx) Sx {
 	}
 	done := make(chan result, 1)
 	partial := make(chan Sx, in.Len()+1)
+	cmpDiff = in.Len()%2 == 0
 	go func() {
 		m := treemap.New()
 		var its [nSlots]*iter
